@@ -11,7 +11,7 @@ from __future__ import annotations
 import numpy as np
 from scipy.linalg import expm
 
-from .. import gens
+from .. import forms, gens
 from ..common import Skip, brief
 
 ID = "C18"
@@ -76,6 +76,7 @@ def gen(rng, tier, index):
         X, y = X * ux, y * uy
     return {
         "edge": edge,
+        "carry": gens.pick(rng, forms.CARRY),
         "how": gens.pick(rng, ("ctor", "ctor", "setattr", "setattr_after_decoy")),
         "units": [ux, uy],
         "y1d": bool(p == 1 and rng.random() < 0.6),
@@ -147,6 +148,7 @@ def run(case, j):
     if case.get("units", [1.0, 1.0]) != [1.0, 1.0]:
         j.note("other_units")
     j.lib("fit", est.fit, X, yin)
+    est = forms.carry(est, case.get("carry", "same"), j)  # what predicts afterwards may be a copy of what was fitted
     Om = np.asarray(est.coef_).T  # predict(x) = x_(padded) @ Om
     ny = max(float(np.linalg.norm(y)), 1e-300)
     if not proj:
